@@ -80,6 +80,7 @@ func (s Stage) Text() string {
 //
 //	expr: E evaluated in Pos; oracle = eval(E)
 //	neg:  E = !path over a non-bool path; only agreement of the condition positions is asserted
+//	path: E = a path in vuego's own syntax (hyphenated keys, numeric dot steps) as the whole expression
 //	pipe: Init | Stages…; oracle = left-to-right application
 //	err:  Init | Stages… (or the call form Fn(Init-as-args) when Call) must fail naming ErrFn
 type Case struct {
@@ -147,7 +148,7 @@ func (c Case) scopeWrap() (open, close string) {
 // Text is the expression source placed into the template.
 func (c Case) Text() string {
 	switch c.Fam {
-	case "expr", "neg":
+	case "expr", "neg", "path":
 		return c.E.Text()
 	}
 	if c.Call {
@@ -372,7 +373,7 @@ func check(c Case) error {
 	env := envOf(c.Env)
 	pos := c.Pos
 	switch c.Fam {
-	case "expr", "neg":
+	case "expr", "neg", "path":
 		if c.E == nil {
 			return nil
 		}
@@ -410,6 +411,13 @@ func expected(c Case, env map[string]any) (v any, known bool, err error) {
 	switch c.Fam {
 	case "neg":
 		return nil, false, nil
+	case "path":
+		// a path in vuego's own syntax as the whole expression: the value the path walker finds
+		v, ok := resolve(env, c.E.V)
+		if !ok {
+			return nil, false, fmt.Errorf("CHECK-BUG: path %s does not resolve in the model", c.E.V)
+		}
+		return v, !dotIndex(c.E.V), nil
 	case "expr":
 		v, err := eval(*c.E, env)
 		if err != nil {
